@@ -6,6 +6,7 @@ import (
 	"fmt"
 	"math/big"
 	"strings"
+	"sync"
 	"sync/atomic"
 
 	ledger "github.com/formancehq/ledger/internal"
@@ -216,6 +217,8 @@ func c13() int {
 	kinds := evid.NewHistogram()
 	// (1) every single shape as the first entry of a chain and as a successor of a fixed predecessor
 	first := alpha[0].Mk().ChainLog(nil)
+	byHash := map[string]string{}
+	var hmu sync.Mutex
 	evid.ParallelFor(len(all), workers(), func(w, i int) {
 		sh := all[i]
 		for _, prev := range []*ledger.ChainedLog{nil, first} {
@@ -238,6 +241,17 @@ func c13() int {
 				rep.Violation(kind+":"+c13Class(sh.Name), why, map[string]interface{}{"engine": "logshapes", "shape": sh.Name, "has_prev": prev != nil})
 			}
 			samples.Offer(func() interface{} { b, _ := json.Marshal(cl); return json.RawMessage(b) })
+			// the hash identifies the content: two entries that differ in type, payload, date, key or predecessor never share one
+			content, _ := json.Marshal(cl.Log)
+			ident := fmt.Sprintf("%v|%s", prev != nil, content)
+			hmu.Lock()
+			if other, dup := byHash[string(cl.Hash)]; dup && other != ident {
+				hmu.Unlock()
+				rep.Violation("hash-blind:"+c13Class(sh.Name), fmt.Sprintf("two different entries share one hash (the hash does not cover what distinguishes them): %s  and  %s", other, ident), map[string]interface{}{"engine": "logshapes", "shape": sh.Name, "has_prev": prev != nil})
+			} else {
+				byHash[string(cl.Hash)] = ident
+				hmu.Unlock()
+			}
 		}
 	})
 	// (2) BFS over all chains up to the length bound over the 12-shape alphabet
